@@ -207,7 +207,9 @@ theorem collectWatches_facts (H : Heap) {L : Limits} (ws : List WatchIn) {c : Ca
     split
     · split
       · exact ⟨hkeep, pf.ext, by simp⟩
-      · exact skip _ (fun v hv => pf.vid v hv) hmerge
+      · split
+        · exact skip _ (by simp) hkeep
+        · exact skip _ (fun v hv => pf.vid v hv) hmerge
     · split
       · exact skip _ (by simp) hkeep
       · split
